@@ -145,9 +145,21 @@ def genSpecs (allowStorage : Bool) (s : R) : List Tk × R :=
 
 def declNames : List String := ["v", "w", "cnt", "ptr", "tab", "k", "m"]
 
+/-- a designation: nothing (mostly), or one or two of `. name` / `[ conditional-expression ]` -/
+def genDesigs (s : R) : List Init.Desig × R :=
+  let one (s : R) : Init.Desig × R :=
+    if sel s 2 == 0 then (.field (pick ["f", "next", "len"] (lcg s)), lcg (lcg s))
+    else let e := genX 1 2 (lcg s); (.index e.1, e.2)
+  match sel s 5 with
+  | 0 => let d := one (lcg s); ([d.1], d.2)
+  | 1 => let d := one (lcg s); let d2 := one d.2; ([d.1, d2.1], d2.2)
+  | _ => ([], lcg s)
+
 def genILwith (g : R → Init.I × R) : Nat → R → Init.IL × R
   | 0, s => (.nil, s)
-  | k+1, s => let i := g (lcg s); let r := genILwith g k i.2; (.cons i.1 r.1, r.2)
+  | k+1, s =>
+    let ds := genDesigs (lcg s)
+    let i := g ds.2; let r := genILwith g k i.2; (.cons ds.1 i.1 r.1, r.2)
 
 /-- an initializer: an assignment expression or a (nested) brace list, sometimes with a trailing comma -/
 def genI : Nat → R → Init.I × R
